@@ -3,8 +3,9 @@ package gateway
 import (
 	"sort"
 
-	hydrapb "github.com/hydraide/hydraide/sdk/go/hydraidego/v3/hydraidepbgo"
+	"github.com/hydraide/hydraide/app/core/hydra/swamp/bucket/valuecanon"
 	"github.com/hydraide/hydraide/app/core/hydra/swamp/treasure"
+	hydrapb "github.com/hydraide/hydraide/sdk/go/hydraidego/v3/hydraidepbgo"
 	"google.golang.org/protobuf/types/known/timestamppb"
 )
 
@@ -370,6 +371,16 @@ func evaluateBytesFieldFilterAgainstMap(decoded map[string]interface{}, filter *
 		return false
 	}
 
+	// EQUAL on a body field follows the one canonical value-equality rule that the
+	// auto-built bucket index uses (valuecanon.Equal: cross-kind numeric equality without
+	// truncation, no string/number coercion), so a query gives the same answer whether
+	// the planner routes it through the index or through this scan.
+	if op == hydrapb.Relational_EQUAL {
+		if ref, ok := compareValueToAny(filter); ok {
+			return valuecanon.Equal(valuecanon.Canonicalize(fieldVal), valuecanon.Canonicalize(ref))
+		}
+	}
+
 	switch cv := filter.GetCompareValue().(type) {
 	case *hydrapb.TreasureFilter_Int8Val:
 		if v, ok := toInt64(fieldVal); ok {
@@ -447,12 +458,10 @@ func evaluateInt32In(fieldVal interface{}, vals []int32) bool {
 	if fieldVal == nil || len(vals) == 0 {
 		return false
 	}
-	v, ok := toInt64(fieldVal)
-	if !ok {
-		return false
-	}
+	// same canonical equality as the bucket index (see evaluateBytesFieldFilterAgainstMap)
+	v := valuecanon.Canonicalize(fieldVal)
 	for _, allowed := range vals {
-		if v == int64(allowed) {
+		if valuecanon.Equal(v, valuecanon.Canonicalize(int64(allowed))) {
 			return true
 		}
 	}
@@ -464,12 +473,10 @@ func evaluateInt64In(fieldVal interface{}, vals []int64) bool {
 	if fieldVal == nil || len(vals) == 0 {
 		return false
 	}
-	v, ok := toInt64(fieldVal)
-	if !ok {
-		return false
-	}
+	// same canonical equality as the bucket index (see evaluateBytesFieldFilterAgainstMap)
+	v := valuecanon.Canonicalize(fieldVal)
 	for _, allowed := range vals {
-		if v == allowed {
+		if valuecanon.Equal(v, valuecanon.Canonicalize(allowed)) {
 			return true
 		}
 	}
